@@ -3,12 +3,15 @@ CFG = {
     "gens": ["C07", "C06"],
     "gen_rules": {"C06": ["glyph-paths-distinct", "layer-paths-distinct", "one-default-first"]},
     "audit": "Norad/Audit/C07.lean",
+    "extract": "filename_consts",
     "rule": ("norad::user_name_to_file_name through the public API with both norad affix pairs ('' + '.glif', 'glyphs.' + ''), a few foreign pairs, "
              "and closures that are stateful (accept the k-th call, k in 0..103) or taken-sets built from earlier results (0,1,2,..,98,99,100 clashes). "
              "Exhaustive part: every name of length <= 4 over {c o n m 1 . space N _ / E-acute sparkling-heart} x 2 affix pairs x {accepted at once, one clash}. "
              "Random part: per-case alphabets (printable ASCII with all 14 illegal characters, clash-prone a/A/_/./space, 2/3/4-byte characters, non-ASCII upper case "
              "incl. Other_Uppercase and letters whose lower case has another byte length, combining marks, reserved words with case/dot variants), escaped length "
-             "peaked at 238..261 bytes with multi-byte characters and period/space runs straddling the cuts; colliding pairs of different user names; histories. "
+             "peaked at 238..261 bytes with multi-byte characters and period/space runs straddling the cuts; colliding pairs of different user names; histories; "
+             "period/space runs of 236..252 characters followed by one 1..4-byte character (byte-exact guard of the layer prefix); every name of length <= 4 over {a A Sigma sigma .} containing a capital sigma "
+             "(accepted at once, one clash, taken-set = its own lower-casing, taken-set = the other lower-case sigma). "
              "Compared: the returned string AND every string the closure was called with (already lower-cased). Oracle on norad's own result: the seven predicates "
              "of Spec/C07.lean. non-trivial = the model escaped a character, inserted the reserved-word underscore, clipped, replaced a trailing run or needed a counter; distinct by input tokens"),
     "exhaustive": {"quick": True, "thorough": True},
@@ -16,7 +19,7 @@ CFG = {
     "timeout": {"quick": 600, "thorough": 7200},
     "trusted_base": COMMON_TRUST + [
         "Unicode tables are parameters: U = char::is_uppercase and lower = str::to_lowercase. Theorems hold for every lower and every U (not_reserved needs U true on ASCII A-Z). "
-        "The harness sends is_uppercase and the per-character to_lowercase of every character used; names on which str::to_lowercase is not the per-character map (capital sigma) are not generated",
+        "The harness sends is_uppercase and the per-character to_lowercase of every character used. str::to_lowercase is the per-character map except for capital sigma (context-sensitive final sigma): for names with capital sigma the driver instantiates lower from the whole-string lower-casings the closure really saw (echoed on the line), accepted as a lowering when it equals the per-character one up to the two lower-case sigmas",
         "the caller's FnMut closure is modelled as a function of (call number, string); a closure with other hidden state is covered by the theorems (any accept : Nat -> Str -> Bool) but not by the correspondence",
         "std::path::PathBuf::from(String) keeps the string (the harness reads it back with to_str)",
     ],
@@ -33,7 +36,7 @@ MANIFEST = {
              "trailing period/space replacement, 1..99 clash counter; is_uppercase/to_lowercase as parameters; FnMut closure indexed by call number). Theorems for ALL valid names of any length, "
              "all closures: the result is the first accepted of 100 explicit candidates and was accepted by the last call (never a rejected candidate; panic iff 100 rejections; the truncate calls never "
              "hit the inside of a character; back-off <= 3 steps); single path component without illegal/control characters, no leading period, no trailing period/space, affixes present, stem not a "
-             "device name; length <= 255 when the first candidate is accepted or the suffix is empty and <= 257 always. Two statements are false on the tree and recorded with kernel-checked "
+             "device name; length <= 255 when the first candidate is accepted or the suffix is empty and <= 257 always. MAX_LEN, NUMBER_LEN, both lists, the counter range and the wrappers' affixes are re-extracted from src/util.rs on every run and tied to the model and to the spec tables by decide-theorems (source_*). Two statements are false on the tree and recorded with kernel-checked "
              "counterexamples: the 257-byte .glif name after a clash, and the 'glyphs.' prefix eaten for layer names made of periods/spaces. Tied to the code by driving the public function on "
              "an exhaustive small-alphabet space plus boundary-directed random names and comparing result and every closure call with the compiled model; the specification predicates are "
              "evaluated on norad's own output. Container-level uniqueness/stability is claimed by the container check on top of fileName_accepted."),
